@@ -462,10 +462,11 @@ class Interp:
         self._mono[key] = out
         return out
 
-    def refvalue(self, f, side):
+    def refvalue(self, f, side, aliased=False):
         """Jet of the reference value of form argument f: shape (M,) + reference_value_shape."""
         env = self.env(side)
-        f = self.alias.get(repr(f), f)
+        if not aliased:
+            f = self.alias.get(repr(f), f)
         el = f.ufl_element()
         rs = tuple(el.reference_value_shape)
         rep = repr(f)
@@ -529,7 +530,7 @@ class Interp:
         if env.mode == "atoms":
             v = self.atom(e, s)
         else:
-            r = self.refvalue(e, s)
+            r = self.refvalue(e, s, aliased=True)
             v = np.asarray(pushforward(e.ufl_element(), r, env.geo)).reshape((self.M,) + tuple(e.ufl_shape))
         return self._apply_perturbations(e, rep, v, s)
 
